@@ -103,11 +103,16 @@ inductive RunErr where
   | index
   deriving DecidableEq, Repr, Inhabited
 
-/-- `AddBond(x, y, k)` -/
+/-- `AddBond(x, y, k)`.  Adding a bond of type `AROMATIC` also sets the aromatic flag of both atoms (RDKit's
+`RWMol::addBond`; probed) — a flag, not a charge, radical count or element. -/
 def WMol.addBond (m : WMol) (x y : Nat) (k : BK) : Except RunErr WMol :=
   if x == y then throw .rdkit
   else if (m.bondBetween x y).isSome then throw .rdkit
-  else pure { m with bonds := m.bonds ++ [⟨x, y, k⟩] }
+  else
+    let atoms := if k == .aromatic then
+        (m.atoms.modify x fun a => { a with aromatic := true }).modify y fun a => { a with aromatic := true }
+      else m.atoms
+    pure { atoms := atoms, bonds := m.bonds ++ [⟨x, y, k⟩] }
 
 /-! ## The edit objects -/
 
